@@ -34,6 +34,9 @@ struct Bh {
     single_handle: bool,
     /// time grid of the explorer (ms): 10, or 1010 for the seconds-range configuration
     grid: u64,
+    /// finished call futures are kept alive until the explorer drops them (join!, select! on
+    /// &mut fut): a finished call must not go on holding its slot
+    keep_done: bool,
 }
 
 struct X {
@@ -69,14 +72,12 @@ fn do_arrive(w: &mut World, svc: &mut Svc, c: usize, single_handle: bool) {
         Ok(Ok(())) => {}
         other => panic!("bulkhead poll_ready not ready: {:?}", other.map(|r| r.is_ok())),
     }
-    let fut = s.call(req.clone());
-    let fut = Box::pin(async move {
-        match fut.await {
-            Ok(r) => Outcome::Ok(r),
-            Err(BulkheadServiceError::Inner(e)) => Outcome::Inner(e),
-            Err(BulkheadServiceError::Bulkhead(BulkheadError::Timeout)) => Outcome::Layer("Timeout".into()),
-            Err(BulkheadServiceError::Bulkhead(BulkheadError::BulkheadFull { .. })) => Outcome::Layer("Full".into()),
-        }
+    // `keep` does not drop the service's own future when it resolves
+    let fut = trv_core::world::keep(s.call(req.clone()), |r| match r {
+        Ok(r) => Outcome::Ok(r),
+        Err(BulkheadServiceError::Inner(e)) => Outcome::Inner(e),
+        Err(BulkheadServiceError::Bulkhead(BulkheadError::Timeout)) => Outcome::Layer("Timeout".into()),
+        Err(BulkheadServiceError::Bulkhead(BulkheadError::BulkheadFull { .. })) => Outcome::Layer("Full".into()),
     });
     w.set_arrived(c, req, fut);
 }
@@ -87,7 +88,7 @@ impl Scenario for Bh {
         self.prop
     }
     fn label(&self) -> String {
-        format!("bulkhead max={} max_wait={:?} callers={}{}{}", self.max, self.max_wait, self.callers, if self.late_ticks > 0 { " late-polls" } else { "" }, if self.shave_us > 0 { format!(" minus {}us", self.shave_us) } else if self.single_handle { " one-handle".to_string() } else { String::new() })
+        format!("bulkhead max={} max_wait={:?} callers={}{}{}", self.max, self.max_wait, self.callers, if self.late_ticks > 0 { " late-polls" } else { "" }, if self.shave_us > 0 { format!(" minus {}us", self.shave_us) } else if self.single_handle { " one-handle".to_string() } else if self.keep_done { " finished-futures-kept".to_string() } else { String::new() })
     }
     fn callers(&self) -> usize {
         self.callers
@@ -97,6 +98,9 @@ impl Scenario for Bh {
     }
     fn grid_ms(&self) -> u64 {
         self.grid
+    }
+    fn retain_completed(&self) -> bool {
+        self.keep_done
     }
     fn init(&self, w: &mut World) -> X {
         let mut b = BulkheadLayer::builder().max_concurrent_calls(self.max);
@@ -313,26 +317,31 @@ fn configs(prop: &'static str, tier: Tier) -> Vec<Bh> {
                 shave_us: 0,
                 single_handle: false,
                 grid: 10,
+                keep_done: false,
             });
         }
     }
     // a wait in the seconds range (2.02 s, explored on a 1.01 s grid): whole seconds plus a
     // sub-second part
-    v.push(Bh { prop, max: 1, max_wait: Some(2020), callers: 3, max_ticks: tier.pick(3, 4), max_drops: 1, max_panics: 0, late_ticks: 0, shave_us: 0, single_handle: false, grid: 1010 });
+    v.push(Bh { prop, max: 1, max_wait: Some(2020), callers: 3, max_ticks: tier.pick(3, 4), max_drops: 1, max_panics: 0, late_ticks: 0, shave_us: 0, single_handle: false, grid: 1010, keep_done: false });
+    // finished futures stay alive until dropped explicitly
+    for max_wait in [None, Some(20u64)] {
+        v.push(Bh { prop, max: 1, max_wait, callers: 3, max_ticks: tier.pick(2, 3), max_drops: tier.pick(2, 3), max_panics: 0, late_ticks: 0, shave_us: 0, single_handle: false, grid: 10, keep_done: true });
+    }
     // all callers through the one original handle (no clone alive between calls)
     for max_wait in [None, Some(20u64)] {
-        v.push(Bh { prop, max: 1, max_wait, callers: 3, max_ticks: tier.pick(3, 4), max_drops: 1, max_panics: 0, late_ticks: 0, shave_us: 0, single_handle: true, grid: 10 });
+        v.push(Bh { prop, max: 1, max_wait, callers: 3, max_ticks: tier.pick(3, 4), max_drops: 1, max_panics: 0, late_ticks: 0, shave_us: 0, single_handle: true, grid: 10, keep_done: false });
     }
     // waits with a sub-millisecond part: 0.5 ms and 19.75 ms
     for (max_wait, shave_us) in [(1u64, 500u64), (20, 250)] {
-        v.push(Bh { prop, max: 1, max_wait: Some(max_wait), callers: 3, max_ticks: tier.pick(3, 4), max_drops: 1, max_panics: 0, late_ticks: 0, shave_us, single_handle: false, grid: 10 });
+        v.push(Bh { prop, max: 1, max_wait: Some(max_wait), callers: 3, max_ticks: tier.pick(3, 4), max_drops: 1, max_panics: 0, late_ticks: 0, shave_us, single_handle: false, grid: 10, keep_done: false });
     }
     // a late executor: woken callers (permit handed over, wait deadline passed) are polled up to two ticks late
     for (max, max_wait) in [(1usize, Some(20u64)), (1, None), (2, Some(20))] {
         if tier == Tier::Quick && max == 2 {
             continue;
         }
-        v.push(Bh { prop, max, max_wait, callers: 3, max_ticks: tier.pick(4, 5), max_drops: tier.pick(1, 2), max_panics: tier.pick(0, 1), late_ticks: 2, shave_us: 0, single_handle: false, grid: 10 });
+        v.push(Bh { prop, max, max_wait, callers: 3, max_ticks: tier.pick(4, 5), max_drops: tier.pick(1, 2), max_panics: tier.pick(0, 1), late_ticks: 2, shave_us: 0, single_handle: false, grid: 10, keep_done: false });
     }
     v
 }
